@@ -68,6 +68,9 @@ pub fn structural_invariants<T>(arena: &Arena<T>) -> Vec<Viol> {
         }
     }
     if !links_valid {
+        // C01 is violated; the bounded walks of C02 still run (they tolerate links to removed or
+        // out-of-range slots), so that a cycle is reported at the step that creates it
+        v.extend(acyclicity_walks(arena, &live));
         return v;
     }
     for &x in &live {
@@ -158,29 +161,38 @@ pub fn structural_invariants<T>(arena: &Arena<T>) -> Vec<Viol> {
             _ => {}
         }
     }
-    // C02: bounded walks
-    for &x in &live {
-        let mut hops = 0usize;
-        let mut cur = links_of(arena, x)[0];
-        while let Some(p) = cur {
-            hops += 1;
-            if hops >= n {
-                v.push(viol("C02", "parent_cycle", format!("parent walk from {} does not reach a root within {} steps", slot_of(x), n)));
-                break;
-            }
-            cur = links_of(arena, p)[0];
-        }
-        for (dir, name) in [(2usize, "next"), (1usize, "previous")] {
+    v.extend(acyclicity_walks(arena, &live));
+    v
+}
+
+/// C02: following parent links from any live node reaches a parentless node in fewer steps than
+/// there are nodes; following sibling links reaches the end of the chain. The walks follow links
+/// through whatever slot they name (a walk that leaves the arena simply ends) and are bounded by
+/// the number of live nodes when every link names a live node, by the number of slots otherwise.
+pub fn acyclicity_walks<T>(arena: &Arena<T>, live: &[NodeId]) -> Vec<Viol> {
+    let mut v = Vec::new();
+    let n = live.len();
+    let bound = arena.count() + 1;
+    let link = |id: NodeId, j: usize| -> Option<NodeId> { arena.get(id).and_then(|_| links_of(arena, id)[j]) };
+    for &x in live {
+        for (dir, kind, name) in [(0usize, "parent_cycle", "parent"), (2usize, "sibling_cycle", "next-sibling"), (1usize, "sibling_cycle", "previous-sibling")] {
             let mut hops = 0usize;
-            let mut cur = links_of(arena, x)[dir];
-            while let Some(s) = cur {
+            let mut all_live = true;
+            let mut cur = link(x, dir);
+            while let Some(p) = cur {
                 hops += 1;
-                if hops >= n {
-                    v.push(viol("C02", "sibling_cycle", format!("{}-sibling walk from {} does not end within {} steps", name, slot_of(x), n)));
+                if arena.get(p).map_or(true, |node| node.is_removed()) {
+                    all_live = false;
+                }
+                if (all_live && hops >= n) || hops >= bound {
+                    v.push(viol("C02", kind, format!("{} walk from {} does not end within {} steps", name, slot_of(x), hops)));
                     break;
                 }
-                cur = links_of(arena, s)[dir];
+                cur = link(p, dir);
             }
+        }
+        if v.len() > 4 {
+            break;
         }
     }
     v
